@@ -16,6 +16,8 @@ c_V5 == {Str("s"), Num(1), Num(2), Bool(TRUE), List(<<"s", "t">>)}
 c_V4 == {Str("s"), Num(2), Bool(TRUE), List(<<"s", "t">>)}
 c_V3 == {Str("s"), Num(2), List(<<"t", "s">>)}
 c_V2 == {Str("t"), List(<<"s">>)}
+\* numeric-looking strings next to the numbers they read as
+c_VN == {Str("1"), Str("1.0"), Str("2"), Num(1), Num(2), Str("s")}
 c_VL == {Str("s"), List(<<"s">>), List(<<"s", "t">>), List(<<"t">>)}
 
 Metas(VK, VJ) == {[x \in {"k", "j"} |-> IF x = "k" THEN a ELSE b] : a \in VK \cup {Absent}, b \in VJ \cup {Absent}}
@@ -39,6 +41,8 @@ c_Add_KJ32 == Metas(c_V3, c_V2)
 c_Set_KJ32 == c_Add_KJ32 \ {NoMeta}
 c_Add_KJ8 == Metas(c_V8, c_V8)
 c_Set_KJ8 == (Metas(c_V8, {}) \cup Metas({}, c_V8)) \ {NoMeta}     \* merges touch one key at a time
+c_Add_KN == Metas(c_VN, {})
+c_Set_KN == c_Add_KN \ {NoMeta}
 c_Add_K3 == Metas(c_V3, {})
 c_Set_K3 == c_Add_K3 \ {NoMeta}
 c_Add_KL == Metas(c_VL, {})
@@ -53,6 +57,10 @@ c_Basis1 == << T("k", "=", "s"),  T("k", "!=", "s"), T("k", "=", "t"),   N("k", 
 c_Basis2 == << T("j", "=", "t"),  T("j", "!=", "s"), N("j", "=", 2),     N("j", "!=", 1),
                N("j", "<", 3),    N("j", ">=", 1),   T("j", "=", "true"), T("k", "=", "false"),
                T("k", "!=", "t"), N("k", "<=", 1),   N("k", ">", 0),     N("k", "=", 2) >>
+\* numeric-looking text: bare numbers, quoted '1' / '1.0' / '2'
+c_Basis3 == << N("k", "<", 2),    N("k", ">=", 2),   N("k", "=", 1),     N("k", "!=", 2),
+               T("k", "=", "1"),  T("k", "=", "1.0"), T("k", "!=", "1"), T("k", "=", "2"),
+               T("k", "=", "s"),  T("k", "!=", "s"), N("k", "<=", 1),    N("k", ">", 1) >>
 c_Basis6 == << T("k", "=", "s"),  T("k", "!=", "t"), N("k", ">=", 2), T("k", "=", "true"), T("j", "=", "s"), N("j", "<", 2) >>
 
 c_StepsAll == {"Snap", "Reopen", "Rewrite", "Compress", "Vacuum"}
